@@ -289,6 +289,23 @@ Proof.
   - apply H.
 Qed.
 
+(* eviction only drops the oldest entry: what is found afterwards was found before *)
+Lemma cache_get_removelast ks (c : lcache) r : cache_get ks (removelast c) = Some r -> cache_get ks c = Some r.
+Proof.
+  induction c as [|[k v] c IH]; [intros H; discriminate|].
+  destruct c as [|e c']; [intros H; discriminate|].
+  change (removelast ((k, v) :: e :: c')) with ((k, v) :: removelast (e :: c')).
+  cbn [cache_get]. destruct (keys_eqb ks k); [intros H; exact H|exact IH].
+Qed.
+
+Lemma cache_ok_put mx w bs c ks : cache_ok w bs c -> cache_ok w bs (cache_put mx ks (getter w bs ks) c).
+Proof.
+  intros H. unfold cache_put. cbv zeta.
+  destruct (Nat.ltb mx (length ((ks, getter w bs ks) :: c))).
+  - intros ks' r E. apply cache_get_removelast in E. exact (cache_ok_cons w bs c ks H ks' r E).
+  - apply cache_ok_cons; exact H.
+Qed.
+
 Definition proxy_ok (s : store) (i : nat) (p : proxy) : Prop :=
   cache_ok true (b2 p) (pc1 p) /\ cache_ok false (b2 p) (pc2 p) /\
   ((lastv p = VTup [] /\ b2 p = []) \/
@@ -467,14 +484,14 @@ Definition lookup_post (w : bool) (s : store) (i : nat) (ks : list Z) (res : sto
   let '(s', r) := res in r = getter w (denot s i) ks /\ Inv s' /\ core_eq s s'.
 
 (* the tail shared by the three caching wrappers: look in _bindings2's own cache *)
-Lemma proxy_lookup w s s1 i ks o1 p :
+Lemma proxy_lookup mx w s s1 i ks o1 p :
   Inv s1 -> core_eq s s1 -> nth_error s1 i = Some o1 -> proxy_of o1 = Some p -> b2 p = denot s i ->
   lookup_post w s i ks
     (match cache_get ks (if w then pc1 p else pc2 p) with
      | Some r => (s1, r)
      | None => let r := getter w (b2 p) ks in
-               let p' := if w then mkproxy (lastv p) (b2 p) ((ks, r) :: pc1 p) (pc2 p)
-                         else mkproxy (lastv p) (b2 p) (pc1 p) ((ks, r) :: pc2 p) in
+               let p' := if w then mkproxy (lastv p) (b2 p) (cache_put (fst mx) ks r (pc1 p)) (pc2 p)
+                         else mkproxy (lastv p) (b2 p) (pc1 p) (cache_put (snd mx) ks r (pc2 p)) in
                (set_nth s1 i (with_proxy o1 p'), r)
      end).
 Proof.
@@ -494,12 +511,12 @@ Proof.
       assert (E2 : b2 p' = b2 p) by (unfold p'; destruct w; reflexivity). rewrite E1, E2.
       destruct C3 as [C3|[s0 [X1 X2]]]; [left; exact C3|right]. exists s0. split; [exact (older_core_eq _ _ _ X1 CE2)|exact X2]. }
     unfold p' in *. destruct w; cbn [pc1 pc2 b2 lastv] in *.
-    + split; [apply cache_ok_cons; exact C1|]. split; [exact C2|exact P3].
-    + split; [exact C1|]. split; [apply cache_ok_cons; exact C2|exact P3].
+    + split; [apply cache_ok_put; exact C1|]. split; [exact C2|exact P3].
+    + split; [exact C1|]. split; [apply cache_ok_put; exact C2|exact P3].
 Qed.
 
-Lemma lookup_ok w ks : forall fuel s i, (i < fuel)%nat -> (i < length s)%nat -> Inv s ->
-  lookup_post w s i ks (lookup fuel w s i ks).
+Lemma lookup_ok mx w ks : forall fuel s i, (i < fuel)%nat -> (i < length s)%nat -> Inv s ->
+  lookup_post w s i ks (lookup mx fuel w s i ks).
 Proof.
   induction fuel as [|f IH]; intros s i Hf Hi I; [lia|].
   pose proof I as [W IO]. cbn [lookup].
@@ -515,8 +532,8 @@ Proof.
                        match cache_get ks (if w then pc1 p else pc2 p) with
                        | Some r => (s1, r)
                        | None => let r := getter w (b2 p) ks in
-                                 let p' := if w then mkproxy (lastv p) (b2 p) ((ks, r) :: pc1 p) (pc2 p)
-                                           else mkproxy (lastv p) (b2 p) (pc1 p) ((ks, r) :: pc2 p) in
+                                 let p' := if w then mkproxy (lastv p) (b2 p) (cache_put (fst mx) ks r (pc1 p)) (pc2 p)
+                                           else mkproxy (lastv p) (b2 p) (pc1 p) (cache_put (snd mx) ks r (pc2 p)) in
                                  (set_nth s1 i (with_proxy o1 p'), r)
                        end
                    | None => (s1, [])
@@ -528,7 +545,7 @@ Proof.
     destruct (core_eq_nth _ _ _ _ CE1 Ho) as [o1 [Ho1 Eo1]]. rewrite Ho1.
     assert (exists p, proxy_of o1 = Some p) as [p Hp].
     { destruct o; cbn in Hp0; try discriminate; destruct o1; cbn in Eo1; try discriminate; eexists; reflexivity. }
-    rewrite Hp. destruct (PX o1 p Ho1 Hp) as [_ HB2]. apply (proxy_lookup w s s1 i ks o1 p I1 CE1 Ho1 Hp). congruence. }
+    rewrite Hp. destruct (PX o1 p Ho1 Hp) as [_ HB2]. apply (proxy_lookup mx w s s1 i ks o1 p I1 CE1 Ho1 Hp). congruence. }
   destruct o as [bs v c1 c2|c flt p|cs p|cands sel|c p].
   - (* KeyBindings: its own SimpleCache *)
     cbn in SU. injection SU as SV SD. pose proof (IO i _ Ho) as [C1 C2]. cbn in C1, C2.
@@ -539,8 +556,8 @@ Proof.
       assert (EC' : obj_core o' = obj_core (OKB bs v c1 c2)) by (unfold o'; destruct w; reflexivity).
       unfold lookup_post. split; [rewrite SD; reflexivity|]. split; [|exact (core_eq_set s i _ o' Ho EC')].
       apply (Inv_set s i _ o' I Ho EC'). unfold o'. destruct w; cbn.
-      * split; [apply cache_ok_cons; exact C1|exact C2].
-      * split; [exact C1|apply cache_ok_cons; exact C2].
+      * split; [apply cache_ok_put; exact C1|exact C2].
+      * split; [exact C1|apply cache_ok_put; exact C2].
   - exact (PROXY p eq_refl).
   - exact (PROXY p eq_refl).
   - (* DynamicKeyBindings: delegate to the selected registry *)
@@ -550,7 +567,7 @@ Proof.
     + assert (Hc : (c < i)%nat) by (apply (W i _ Ho); exact (dyn_child_in _ _ _ ED)).
       injection SU as SV SD.
       assert (Hl1 : (c < length s1)%nat) by (rewrite <- (core_eq_length _ _ CE1); lia).
-      pose proof (IH s1 c ltac:(lia) Hl1 I1) as P. destruct (lookup f w s1 c ks) as [s2 r].
+      pose proof (IH s1 c ltac:(lia) Hl1 I1) as P. destruct (lookup mx f w s1 c ks) as [s2 r].
       destruct P as [HR [I2 CE2]]. unfold lookup_post.
       split; [|split; [exact I2|exact (core_eq_trans _ _ _ CE1 CE2)]].
       rewrite HR, SD. unfold denot. rewrite (summ_core_eq _ _ CE1). reflexivity.
@@ -647,18 +664,18 @@ Lemma wf_objs_wfs l : wf_objs 0 l = true -> wfs l.
 Proof. intros H i o Hn c Hc. exact (wf_objs_wfs_from 0 l H i o Hn c Hc). Qed.
 
 (* ---------------------------------------------------------------- histories *)
-Definition rstep (s : store) (o : rop) : store :=
+Definition rstep (mx : maxsizes) (s : store) (o : rop) : store :=
   match o with
   | RAdd k b => kb_add s k b
   | RAddB k pre arg => kb_addb s k pre arg
   | RRemoveKeys k ks => fst (kb_remove s k false 0 ks)
   | RRemoveHandler k h => fst (kb_remove s k true h [])
   | RSetDyn d sel => set_dyn s d sel
-  | RLookup w i ks => fst (lookup (S (length s)) w s i ks)
+  | RLookup w i ks => fst (lookup mx (S (length s)) w s i ks)
   | RBindings i => fst (fst (upd (S (length s)) s i))
   end.
 
-Lemma rstep_inv s o : Inv s -> Inv (rstep s o).
+Lemma rstep_inv mx s o : Inv s -> Inv (rstep mx s o).
 Proof.
   intros I. destruct o as [k b|k pre arg|k ks|k h|d sel|w i ks|i]; cbn [rstep].
   - apply kb_add_inv; exact I.
@@ -667,8 +684,8 @@ Proof.
   - apply kb_remove_inv; exact I.
   - apply set_dyn_inv; exact I.
   - destruct (Nat.lt_ge_cases i (length s)) as [Hi|Hi].
-    + pose proof (lookup_ok w ks (S (length s)) s i ltac:(lia) Hi I) as P.
-      destruct (lookup (S (length s)) w s i ks) as [s' r]. exact (proj1 (proj2 P)).
+    + pose proof (lookup_ok mx w ks (S (length s)) s i ltac:(lia) Hi I) as P.
+      destruct (lookup mx (S (length s)) w s i ks) as [s' r]. exact (proj1 (proj2 P)).
     + cbn [lookup]. assert (E : nth_error s i = None) by (apply nth_error_None; lia). rewrite E. exact I.
   - destruct (Nat.lt_ge_cases i (length s)) as [Hi|Hi].
     + pose proof (upd_ok (S (length s)) s i ltac:(lia) Hi I) as P.
@@ -676,7 +693,7 @@ Proof.
     + cbn [upd]. assert (E : nth_error s i = None) by (apply nth_error_None; lia). rewrite E. exact I.
 Qed.
 
-Lemma history_inv ops : forall s, Inv s -> Inv (fold_left rstep ops s).
+Lemma history_inv mx ops : forall s, Inv s -> Inv (fold_left (rstep mx) ops s).
 Proof. induction ops as [|o ops IH]; intros s I; [exact I|]. cbn [fold_left]. apply IH, rstep_inv, I. Qed.
 
 Lemma Inv_wfs s : Inv s -> wfs s.
@@ -684,15 +701,15 @@ Proof. intros [W _]. exact W. Qed.
 
 (* After any history, a lookup through any object returns what the uncached
    getter returns on the object's current binding list. *)
-Theorem cache_coherent s0 ops w i ks :
-  Inv s0 -> let s := fold_left rstep ops s0 in
+Theorem cache_coherent mx s0 ops w i ks :
+  Inv s0 -> let s := fold_left (rstep mx) ops s0 in
   (i < length s)%nat ->
-  snd (lookup (S (length s)) w s i ks) = getter w (denot s i) ks /\
+  snd (lookup mx (S (length s)) w s i ks) = getter w (denot s i) ks /\
   snd (upd (S (length s)) s i) = denot s i.
 Proof.
-  intros I0 s Hi. pose proof (history_inv ops s0 I0) as I. fold s in I. split.
-  - pose proof (lookup_ok w ks (S (length s)) s i ltac:(lia) Hi I) as P.
-    destruct (lookup (S (length s)) w s i ks) as [s' r]. exact (proj1 P).
+  intros I0 s Hi. pose proof (history_inv mx ops s0 I0) as I. fold s in I. split.
+  - pose proof (lookup_ok mx w ks (S (length s)) s i ltac:(lia) Hi I) as P.
+    destruct (lookup mx (S (length s)) w s i ks) as [s' r]. exact (proj1 P).
   - pose proof (upd_ok (S (length s)) s i ltac:(lia) Hi I) as P.
     destruct (upd (S (length s)) s i) as [[s' v] bs]. destruct P as [_ [HB _]]. exact HB.
 Qed.
@@ -752,3 +769,132 @@ Proof.
          [mkbinding [1] FAlways FNever false 1 [] true 0; mkbinding [2] FAlways FNever false 1 [] true 0].
   cbn. discriminate.
 Qed.
+
+(* ---------------------------------------------------------------- SimpleCache eviction is transparent *)
+Lemma map_set_nth {T U} (f : T -> U) (l : list T) i x : map f (set_nth l i x) = set_nth (map f l) i (f x).
+Proof. revert i. induction l as [|y l IH]; intros [|i]; cbn; try reflexivity. f_equal. apply IH. Qed.
+
+Lemma core_eq_set2 s t k o o' : core_eq s t -> obj_core o = obj_core o' -> core_eq (set_nth s k o) (set_nth t k o').
+Proof. unfold core_eq. intros H E. rewrite !map_set_nth, H, E. reflexivity. Qed.
+
+Lemma core_eq_sym s t : core_eq s t -> core_eq t s.
+Proof. unfold core_eq. intros H. symmetry. exact H. Qed.
+
+Lemma core_eq_nth2 s t k : core_eq s t ->
+  match nth_error s k, nth_error t k with
+  | Some a, Some b => obj_core a = obj_core b
+  | None, None => True
+  | _, _ => False
+  end.
+Proof.
+  unfold core_eq. intros H.
+  assert (E : nth_error (map obj_core s) k = nth_error (map obj_core t) k) by (rewrite H; reflexivity).
+  rewrite !nth_error_map in E.
+  destruct (nth_error s k), (nth_error t k); cbn in E; try discriminate; [injection E as E; exact E|exact I].
+Qed.
+
+Lemma kb_append_core s t k b : core_eq s t -> core_eq (kb_append s k b) (kb_append t k b).
+Proof.
+  intros H. pose proof (core_eq_nth2 s t k H) as N. unfold kb_append.
+  destruct (nth_error s k) as [[bs v c1 c2|c f p|cs p|cands sel|c p]|],
+           (nth_error t k) as [[bs' v' c1' c2'|c' f' p'|cs' p'|cands' sel'|c' p']|];
+    cbn in N; try discriminate; try contradiction; try exact H.
+  injection N as -> ->. apply core_eq_set2; [exact H|reflexivity].
+Qed.
+
+Lemma kb_remove_core s t k bh h ks : core_eq s t ->
+  core_eq (fst (kb_remove s k bh h ks)) (fst (kb_remove t k bh h ks)) /\
+  snd (kb_remove s k bh h ks) = snd (kb_remove t k bh h ks).
+Proof.
+  intros H. pose proof (core_eq_nth2 s t k H) as N. unfold kb_remove.
+  destruct (nth_error s k) as [[bs v c1 c2|c f p|cs p|cands sel|c p]|],
+           (nth_error t k) as [[bs' v' c1' c2'|c' f' p'|cs' p'|cands' sel'|c' p']|];
+    cbn in N; try discriminate; try contradiction; try (split; [exact H|reflexivity]).
+  injection N as -> ->.
+  destruct (rm_loop _ bs') as [l fd]. destruct fd; cbn [fst snd]; split; try reflexivity; try exact H.
+  apply core_eq_set2; [exact H|reflexivity].
+Qed.
+
+Lemma set_dyn_core s t d sel : core_eq s t -> core_eq (set_dyn s d sel) (set_dyn t d sel).
+Proof.
+  intros H. pose proof (core_eq_nth2 s t d H) as N. unfold set_dyn.
+  destruct (nth_error s d) as [[bs v c1 c2|c f p|cs p|cands sel0|c p]|],
+           (nth_error t d) as [[bs' v' c1' c2'|c' f' p'|cs' p'|cands' sel0'|c' p']|];
+    cbn in N; try discriminate; try contradiction; try exact H.
+  injection N as -> _. apply core_eq_set2; [exact H|reflexivity].
+Qed.
+
+(* lookups and `.bindings` only touch caches and _last_version / _bindings2 *)
+Lemma lookup_core mx w s i ks : Inv s -> core_eq s (fst (lookup mx (S (length s)) w s i ks)).
+Proof.
+  intros I. destruct (Nat.lt_ge_cases i (length s)) as [Hi|Hi].
+  - pose proof (lookup_ok mx w ks (S (length s)) s i ltac:(lia) Hi I) as P.
+    destruct (lookup mx (S (length s)) w s i ks) as [s' r]. exact (proj2 (proj2 P)).
+  - cbn [lookup]. assert (E : nth_error s i = None) by (apply nth_error_None; lia). rewrite E. apply core_eq_refl.
+Qed.
+
+Lemma upd_core s i : Inv s -> core_eq s (fst (fst (upd (S (length s)) s i))).
+Proof.
+  intros I. destruct (Nat.lt_ge_cases i (length s)) as [Hi|Hi].
+  - pose proof (upd_ok (S (length s)) s i ltac:(lia) Hi I) as P.
+    destruct (upd (S (length s)) s i) as [[s' v] bs]. destruct P as [_ [_ [_ [CE _]]]]. exact CE.
+  - cbn [upd]. assert (E : nth_error s i = None) by (apply nth_error_None; lia). rewrite E. apply core_eq_refl.
+Qed.
+
+Lemma rstep_core mx mx' s t o : Inv s -> Inv t -> core_eq s t -> core_eq (rstep mx s o) (rstep mx' t o).
+Proof.
+  intros Is It H. destruct o as [k b|k pre arg|k ks|k h|d sel|w i ks|i]; cbn [rstep].
+  - unfold kb_add. destruct (cls (bfilter b)); try exact H; apply kb_append_core; exact H.
+  - unfold kb_addb. destruct (cls (bfilter arg)); try exact H; apply kb_append_core; exact H.
+  - exact (proj1 (kb_remove_core s t k false 0 ks H)).
+  - exact (proj1 (kb_remove_core s t k true h [] H)).
+  - apply set_dyn_core; exact H.
+  - apply (core_eq_trans _ s); [apply core_eq_sym, lookup_core; exact Is|].
+    apply (core_eq_trans _ t); [exact H|apply lookup_core; exact It].
+  - apply (core_eq_trans _ s); [apply core_eq_sym, upd_core; exact Is|].
+    apply (core_eq_trans _ t); [exact H|apply upd_core; exact It].
+Qed.
+
+Lemma history_core mx mx' ops : forall s t, Inv s -> Inv t -> core_eq s t ->
+  core_eq (fold_left (rstep mx) ops s) (fold_left (rstep mx') ops t).
+Proof.
+  induction ops as [|o ops IH]; intros s t Is It H; [exact H|]. cbn [fold_left].
+  apply IH; [apply rstep_inv; exact Is|apply rstep_inv; exact It|apply rstep_core; assumption].
+Qed.
+
+(* Whatever the two maxsize values are (1 entry or unbounded), every lookup and every
+   `.bindings` after the same history returns the same list: eviction never changes a result. *)
+Theorem eviction_transparent mx mx' s0 ops w i ks :
+  Inv s0 ->
+  let s := fold_left (rstep mx) ops s0 in
+  let t := fold_left (rstep mx') ops s0 in
+  (i < length s)%nat ->
+  snd (lookup mx (S (length s)) w s i ks) = snd (lookup mx' (S (length t)) w t i ks) /\
+  snd (upd (S (length s)) s i) = snd (upd (S (length t)) t i).
+Proof.
+  intros I0 s t Hi.
+  pose proof (history_core mx mx' ops s0 s0 I0 I0 (core_eq_refl s0)) as CE. fold s t in CE.
+  assert (Ht : (i < length t)%nat) by (rewrite <- (core_eq_length _ _ CE); exact Hi).
+  destruct (cache_coherent mx s0 ops w i ks I0 Hi) as [A1 A2].
+  destruct (cache_coherent mx' s0 ops w i ks I0 Ht) as [B1 B2].
+  fold s in A1, A2. fold t in B1, B2.
+  assert (D : denot s i = denot t i) by (unfold denot; rewrite (summ_core_eq _ _ CE); reflexivity).
+  split; [rewrite A1, B1, D; reflexivity|rewrite A2, B2, D; reflexivity].
+Qed.
+
+Lemma removelast_cons_length {T} (c : list T) : forall x, length (removelast (x :: c)) = length c.
+Proof. induction c as [|y c IH]; intros x; [reflexivity|]. change (removelast (x :: y :: c)) with (x :: removelast (y :: c)). cbn [length]. rewrite IH. reflexivity. Qed.
+
+(* the bound itself: a cache within its maxsize stays within it *)
+Lemma cache_put_length mx ks r c : (length c <= mx)%nat -> (length (cache_put mx ks r c) <= mx)%nat.
+Proof.
+  intros H. unfold cache_put. cbv zeta. destruct (Nat.ltb mx (length ((ks, r) :: c))) eqn:E.
+  - rewrite removelast_cons_length. exact H.
+  - apply Nat.ltb_ge in E. exact E.
+Qed.
+
+(* non-vacuity: with maxsize 1 the second distinct lookup evicts the first entry *)
+Example eviction_happens :
+  let s := fold_left (rstep (1%nat, 1%nat)) [RLookup true 0%nat [1]; RLookup true 0%nat [2]] [OKB [] 0 [] []] in
+  s = [OKB [] 0 [([2], [])] []].
+Proof. vm_compute. reflexivity. Qed.
